@@ -26,7 +26,7 @@ let path_of_string (s : string) : path = List.map cs (List.filter (fun x -> x <>
 let esc_path (s : string) : string =
   let b = Buffer.create (String.length s) in
   String.iter (fun c -> let k = Char.code c in
-                if k <= 0x20 || c = '%' || k = 0x7f then Buffer.add_string b (Printf.sprintf "%%%02x" k) else Buffer.add_char b c) s;
+                if k <= 0x20 || c = '%' || k >= 0x7f then Buffer.add_string b (Printf.sprintf "%%%02x" k) else Buffer.add_char b c) s;
   Buffer.contents b
 let string_of_path (p : path) : string = esc_path (String.concat "/" (List.map sc p))
 
@@ -385,9 +385,9 @@ let run () =
            Array.iteri (fun i p -> pf "PART %d begin\n" i; Buffer.add_buffer !obuf p.p_buf; pf "PART %d end\n" i) !parts;
            (match !mismatch with Some m -> pf "SCHEDMISMATCH %s\n" m | None -> pf "SCHEDOK %d\n" !ntok)
          | "build" -> ()
-         | "mkdir" -> mkdirs (path_of_string f.(1))
-         | "mkdirt" -> mkdirs (path_of_string f.(1)); set_dir_time (path_of_string f.(1)) (z_of_string f.(2))
-         | "plant" -> plant (path_of_string f.(1)) (expand f.(2)) (int_of_string ("0o" ^ f.(3))) (z_of_string f.(4)) (z_of_string f.(5))
+         | "mkdir" -> mkdirs (path_of_string (unesc f.(1)))
+         | "mkdirt" -> mkdirs (path_of_string (unesc f.(1))); set_dir_time (path_of_string (unesc f.(1))) (z_of_string f.(2))
+         | "plant" -> plant (path_of_string (unesc f.(1))) (expand f.(2)) (int_of_string ("0o" ^ f.(3))) (z_of_string f.(4)) (z_of_string f.(5))
          | "trig" ->
            for i = 1 to Array.length f - 1 do
              match String.index_opt f.(i) '=' with
@@ -403,7 +403,7 @@ let run () =
                 | _ -> ())
            done
          | "hardlink" ->
-           let a = path_of_string f.(1) and b = path_of_string f.(2) in
+           let a = path_of_string (unesc f.(1)) and b = path_of_string (unesc f.(2)) in
            mkdirs (List.rev (List.tl (List.rev b)));
            let fs = !world.w_fs in
            (match name_of fs a with
